@@ -46,7 +46,9 @@ def _filler(kind, rnd, after_line_comment):
     elif kind == "line":
         f = rnd.choice([" -- c\n", " -- a;b 'x\n  ", "\n-- only\n"])
     elif kind == "hash":
-        f = rnd.choice([" # c\n", " # a;b 'x\n  ", "\n# only\n", " #c\n"])
+        f = rnd.choice([" # c\n", " # a;b 'x\n  ", "\n# only\n"])
+    elif kind == "hash_glued":
+        f = rnd.choice([" #c\n", "\n#only;\n"])  # no blank after the hash: a comment for the dialect's lexer, not for sqlparse's (KF-13)
     else:
         raise ValueError(kind)
     if after_line_comment and not f.startswith("\n"):
@@ -107,9 +109,9 @@ def rewrite(lv, dialect, spec, rnd):
     """spec: {"kind": ..., "at": optional single boundary index}; returns new text or None when not applicable"""
     lv = [list(x) for x in lv]
     kind = spec["kind"]
-    if kind in ("hash", "ins_hash") and not hash_comment_dialect(dialect):
+    if kind in ("hash", "ins_hash", "hash_glued") and not hash_comment_dialect(dialect):
         return None
-    if kind in ("ws", "block", "line", "hash"):
+    if kind in ("ws", "block", "line", "hash", "hash_glued"):
         gs = gaps(lv)
         if not gs:
             return None
